@@ -10,6 +10,7 @@ type case = {
   mutable raw : (int * int * string) list;
   mutable parsed : string list;
   mutable generics : string list;
+  mutable passes : int list list option;
   mutable lines : (string * line list) list;
   mutable states : (string * tokstate array) list;
   mutable out : string option;
@@ -20,7 +21,7 @@ type case = {
   mutable badutf8 : bool;
   mutable complete : bool;
 }
-let new_case id = { id; cfg = []; rs = ("", "", ""); input = ""; cursors = []; raw = []; parsed = []; generics = [];
+let new_case id = { id; cfg = []; rs = ("", "", ""); input = ""; cursors = []; raw = []; parsed = []; generics = []; passes = None;
   lines = []; states = []; out = None; outcursors = []; panic = None; drift = false; cursordep = false; badutf8 = false; complete = false }
 let split s = String.split_on_char ' ' s |> List.filter (fun x -> x <> "")
 let ints s = if s = "-" then [] else List.map int_of_string (String.split_on_char ',' s)
@@ -28,16 +29,17 @@ let ints s = if s = "-" then [] else List.map int_of_string (String.split_on_cha
 let read_cases (ic : in_channel) (f : case -> unit) : unit =
   let cur = ref None in
   let pending_n = ref 0 and pending_kind = ref "" and pending_label = ref "" in
-  let acc_raw = ref [] and acc_t = ref [] and acc_l = ref [] and acc_k = ref [] in
+  let acc_raw = ref [] and acc_t = ref [] and acc_l = ref [] and acc_k = ref [] and acc_p = ref [] in
   let flush_pending c =
     (match !pending_kind with
      | "RAW" -> c.raw <- List.rev !acc_raw
      | "PARSED" -> c.parsed <- List.rev !acc_t
      | "GENERICS" -> c.generics <- List.rev !acc_t
+     | "PASSES" -> c.passes <- Some (List.rev !acc_p)
      | "LINES" -> c.lines <- c.lines @ [(!pending_label, List.rev !acc_l)]
      | "STATE" -> c.states <- c.states @ [(!pending_label, Array.of_list (List.rev !acc_k))]
      | _ -> ());
-    pending_kind := ""; acc_raw := []; acc_t := []; acc_l := []; acc_k := [] in
+    pending_kind := ""; acc_raw := []; acc_t := []; acc_l := []; acc_k := []; acc_p := [] in
   (try
     while true do
       let l = input_line ic in
@@ -48,6 +50,7 @@ let read_cases (ic : in_channel) (f : case -> unit) : unit =
           (match w, rest with
            | "r", [a; b; ty] -> acc_raw := (int_of_string a, int_of_string b, ty) :: !acc_raw
            | "t", [ty] -> acc_t := ty :: !acc_t
+           | "p", l -> acc_p := List.map int_of_string l :: !acc_p
            | "l", lty :: lev :: pl :: pt :: _n :: toks ->
                acc_l := { lty; level = int_of_string lev; pline = int_of_string pl; ptok = int_of_string pt; toks = List.map int_of_string toks } :: !acc_l
            | "k", [ig; nl; ind; cont; sp; ty; ws; ct] ->
@@ -61,6 +64,7 @@ let read_cases (ic : in_channel) (f : case -> unit) : unit =
               | "INPUT", [h] -> c.input <- Util.unhex h
               | "CURSORS", [s] -> c.cursors <- ints s
               | "RAW", [_] -> pending_kind := "RAW"
+              | "PASSES", [_] -> pending_kind := "PASSES"
               | "PARSED", [_] -> pending_kind := "PARSED"
               | "GENERICS", [_] -> pending_kind := "GENERICS"
               | "LINES", [lab; _] -> pending_kind := "LINES"; pending_label := lab
